@@ -275,13 +275,81 @@ theorem skeleton_matches_model :
     Gen.C09.swcOneSection ≠ 0 ∧ Gen.C09.swcCountsExiting ≠ 0 ∧ Gen.C09.swcFirstBroadcastUnderL ≠ 0 ∧
     Gen.C09.killTakenUnderLock ≠ 0 ∧ Gen.C09.exitingCountedUnderLock ≠ 0 ∧
     Gen.C09.exitDecidedWithKillInOneSection ≠ 0 ∧ Gen.C09.workerMapsUnderLock ≠ 0 ∧
-    Gen.C09.lockOrderAcyclic ≠ 0 := by decide
+    Gen.C09.lockOrderAcyclic ≠ 0 ∧
+    -- JoinAll re-asserts its request inside its loop (`joinKill` may recur: joinall_bound applies after the
+    -- last overlapping SetWorkerCount); SetWorkerCount's polling loops look at workerKill
+    Gen.C09.joinAllKeepsRequestUp ≠ 0 ∧ Gen.C09.swcLoopsYieldToJoinAll ≠ 0 := by decide
 
 /-- the reviewer's interleaving of JoinAll with two resizes: the worker that found the queue empty on the
     exit-when-drained path re-checks workerKill and stays — two workers, as requested -/
 example : ∃ s, runFrom repaired init
     [.swcSet 1, .joinKill, .killPass 0, .swcSet 2, .popNone 0, .swcSet 2, .drainExit 0] = some s ∧
     s.live = 2 ∧ s.kill = 0 := ⟨_, rfl, by decide, by decide⟩
+
+/-- **JoinAll: bounded work while its request stands.** While `workerKill = -1` and no new call starts
+    (pool-internal events and JoinAll's own polling broadcasts only), every pool-internal event lowers
+    the measure `cmuJ` (queued tasks × a full worker round + each worker's remaining steps to its exit)
+    and a polling broadcast never raises it: at most `cmuJ (abs s)` internal events can happen at all.
+    JoinAll re-asserts its request in every iteration of its loop (`joinKill`), so this applies again
+    after the last overlapping SetWorkerCount. -/
+theorem joinall_bound {s s' : State} {es : List Event} (hk : s.kill = -1)
+    (hes : ∀ e ∈ es, isInternal e = true ∨ e = .bcast) (h : runFrom repaired s es = some s') :
+    es.countP isInternal + cmuJ (abs s') ≤ cmuJ (abs s) ∧ s'.kill = -1 := by
+  induction es generalizing s with
+  | nil => simp [runFrom, List.foldlM] at h; subst h; simp [hk]
+  | cons e es ih =>
+    simp only [runFrom, List.foldlM_cons] at h
+    cases hs : step repaired s e with
+    | none => simp [hs] at h
+    | some s1 =>
+      simp [hs] at h
+      rcases hes e (by simp) with hint | rfl
+      · have hstep := cmuJ_step (sim_step hs) (by rw [internal_abs]; exact hint) (by simpa [abs] using hk)
+        have hk1 : s1.kill = -1 := by simpa [abs] using hstep.2
+        have := ih hk1 (fun e' he' => hes e' (by simp [he'])) h
+        simp only [List.countP_cons, hint, if_true]
+        omega
+      · have hstep := cmuJ_bcast (sim_step hs)
+        have hk1 : s1.kill = -1 := by
+          have := hstep.2; simp [abs] at this; omega
+        have := ih hk1 (fun e' he' => hes e' (by simp [he'])) h
+        have hb : isInternal Event.bcast = false := rfl
+        simp only [List.countP_cons, hb]
+        simp
+        omega
+
+/-- **JoinAll is never stuck.** In a reachable state in which no pool-internal event is enabled (nothing
+    runs, nothing is in flight) either JoinAll's exit condition holds, or some worker is parked in Wait —
+    JoinAll's next loop iteration (request re-asserted, Broadcast) wakes it: progress, and by
+    `joinall_bound` only boundedly often —, or the pool has no worker but queued tasks (outside the
+    property: "while the pool has at least one worker"). With `joinall_bound`: under scheduler fairness
+    and terminating tasks a JoinAll returns, also when SetWorkerCount calls overlap with it, as long as
+    they stop arriving. -/
+theorem joinall_not_stuck {s : State} (h : Reachable repaired s)
+    (hst : ∀ e ∈ internalEvents s, step repaired s e = none) :
+    joinAllGuard s = true ∨ 0 < cntOf s.pcs .waiting ∨ (s.workerCount = 0 ∧ s.queue ≠ []) := by
+  have hrun : cntOf s.pcs .run = 0 := by
+    rcases Nat.eq_zero_or_pos (cntOf s.pcs .run) with h0 | h0
+    · exact h0
+    · obtain ⟨e, he, hen⟩ := run_enabled h0
+      rw [hst e he] at hen; simp at hen
+  rcases enabled_or_parked h with ⟨e, he, _, hen⟩ | ⟨hp, _⟩
+  · rw [hst e he] at hen; simp at hen
+  · by_cases hw : 0 < cntOf s.pcs .waiting
+    · exact Or.inr (Or.inl hw)
+    · have hwc : s.workerCount = 0 := by simp only [State.workerCount]; omega
+      cases hq : s.queue with
+      | nil => left; simp [joinAllGuard, hwc, hq]
+      | cons a l => right; right; exact ⟨hwc, by simp⟩
+
+/-- the overlapping case is not vacuous: JoinAll, then a SetWorkerCount(2) that overwrites the request and
+    starts workers, which go idle; nothing internal is enabled, the guard is false — the next iteration
+    re-asserts and broadcasts -/
+example : ∃ s, Reachable repaired s ∧ joinAllGuard s = false ∧ s.kill = 0 ∧ s.pcs = [.waiting, .waiting] ∧
+    (∀ e ∈ internalEvents s, step repaired s e = none) :=
+  ⟨_, ⟨[.joinKill, .swcSet 2, .killPass 0, .popNone 0, .regIdle 0, .wLock 0, .readQ 0, .readKill 0, .wWait 0,
+        .killPass 1, .popNone 1, .regIdle 1, .wLock 1, .readQ 1, .readKill 1, .wWait 1], rfl⟩,
+    by decide, by decide, by decide, by decide⟩
 
 /-- the schedule that loses the wake-up: the worker finds the queue empty; AddTask runs to
     completion (its Signal finds nobody waiting); then the worker goes to sleep -/
